@@ -206,12 +206,14 @@ def rows_to_array(rows):
                     dtype=float).reshape(len(rows), -1)
 
 
-def ref_adaptive(D, kA, order):
+def ref_adaptive(D, kA, order, nb=None):
     """the adaptive-neighbourhood construction as documented ([Xu2008], processing order
     `order`): in round i every state, in the given order, is linked (symmetrically) to its
-    nearest neighbour beyond the i-th it is not yet linked to.  Rows of D without ties."""
+    nearest neighbour beyond the i-th it is not yet linked to.  Rows of D without ties, or
+    (round 5) the ranking `nb` of the neighbours given by the caller."""
     n = len(D)
-    nb = [sorted(range(n), key=lambda j: D[i][j]) for i in range(n)]
+    if nb is None:
+        nb = [sorted(range(n), key=lambda j: D[i][j]) for i in range(n)]
     R = [[0] * n for _ in range(n)]
     for i in range(kA):
         for l in order:
@@ -788,6 +790,133 @@ def run(ctx):
                 reqs.append((f"rnx 1 {metric} 0 - a:{kB} {ordtxt} {enc_vmat(ts)}" if net else
                              f"rpx {metric} 0 0 - a:{kB} {ordtxt} {enc_vmat(ts)}"))
                 impl.append(got)
+
+    # adaptive neighbourhood size with TIED distances (round 5): duplicate state vectors,
+    # lattice data, NaN states, 17+ states (where NumPy's argsort is no longer an insertion
+    # sort and not stable).  NumPy's order among ties is unspecified, so the model is handed
+    # the table NumPy produced (the same deterministic call on the object's own distance
+    # matrix), first checks that it IS an argsort of the model's distance rows
+    # (`argsortOK`; theorem adaptive_plot_any_argsort speaks about every such table) and then
+    # runs the kernel on it: constructor, then the setter with a caller-chosen order.
+    def q_key(v):
+        return (1, 0) if v is None else (0, v)
+
+    for c in range(30 * scale):
+        big = rng.random() < (0.2 if quick else 0.35)
+        n = rng.randrange(17, 48 if quick else 130) if big else rng.randrange(2, 13)
+        emb = gen_emb(rng, 0.3)
+        d = 1 if emb is not None else rng.choice([1, 1, 2, 3])
+        n_st = n - ((emb[0] - 1) * emb[1] if emb else 0)
+        if n_st < 2:
+            continue
+        nv = rng.choice([1, 2, 2, 3, 4, 6])
+        ts = np.array([[float(rng.randrange(nv)) for _ in range(d)] for _ in range(n)])
+        if rng.random() < 0.3:
+            ts = ts[np.lexsort(ts.T[::-1])]       # runs of equal states
+        with_nan = rng.random() < 0.15
+        if with_nan:
+            for _ in range(rng.choice([1, 1, 2])):
+                ts[rng.randrange(n), rng.randrange(d)] = np.nan
+        metric = rng.choice(METRICS)
+        kA = min(n_st - 1, rng.choice([1, 1, 2, 3, rng.randrange(1, n_st)]))
+        net = rng.random() < 0.4
+        cls = "RecurrenceNetwork" if net else "RecurrencePlot"
+        kw = dict(metric=metric, adaptive_neighborhood_size=kA, silence_level=3)
+        if emb:
+            kw.update(dim=emb[0], tau=emb[1])
+        replay = dict(cls=cls, time_series=ts.tolist(), kwargs={k: v for k, v in kw.items()})
+        ctx.count(f"{cls}:adaptive-ties" + (":17+" if big else "") + (":nan" if with_nan else "")
+                  + (":emb" if emb else ""))
+        try:
+            with np.errstate(all="ignore"):
+                obj = (RecurrenceNetwork if net else RecurrencePlot)(caller_array(rng, ts), **kw)
+                sn = np.asarray(obj.distance_matrix(metric)).argsort(axis=1)
+        except Exception as ex:  # noqa
+            ctx.case(("adaptive-ties", cls, metric, emb, kA, ts.tobytes().hex()), False)
+            ctx.fail(dict(kind="adaptive", cls=cls, error=type(ex).__name__, ties=True),
+                     f"{cls}(adaptive_neighborhood_size={kA}) raised {type(ex).__name__}: {ex} "
+                     f"for {n_st} states with tied distances", replay)
+            continue
+        R = np.asarray(obj.recurrence_matrix())
+        ctx.case(("adaptive-ties", cls, metric, emb, kA, ts.tobytes().hex()), nontrivial(R))
+        st = q_states(ts, emb)
+        D = q_dists(metric, st, st)
+        for i in range(n_st):
+            D[i][i] = Fr(0)                      # the kernels leave the np.zeros diagonal
+        tied = any(len(set(r)) < len(r) for r in D)
+        ctx.count("adaptive-ties: some row has tied distances" if tied else
+                  "adaptive-ties: no tie")
+        if (sn != np.asarray(obj.distance_matrix(metric)).argsort(axis=1, kind="stable")).any():
+            ctx.count("adaptive-ties: NumPy's table differs from the stable argsort")
+        if (sn[:, 0] != np.arange(n_st)).any():
+            ctx.count("adaptive-ties: some state does not sort first in its own row")
+        # oracle (independent of the model; tie-independent statements only)
+        problem = None
+        if R.shape != (n_st, n_st) or not np.array_equal(R, R.T) or int(obj.N) != n_st:
+            problem = "matrix not symmetric n x n / N"
+        else:
+            for i in range(n_st):
+                srt = sorted(D[i], key=q_key)
+                want = sorted(srt[1:kA + 1], key=q_key)      # distances of ranks 1..kA
+                have = sorted((D[i][j] for j in range(n_st) if R[i, j]), key=q_key)
+                # multiset inclusion want <= have
+                it = iter(have)
+                # (with NaN the supremum kernel skips the component: no Fraction distance here)
+                if not (with_nan and metric == "supremum") and \
+                        not all(any(h == w for h in it) for w in want):
+                    problem = (f"state {i} is not linked to states at its {kA} smallest "
+                               "distances (ranks 1..k of the sorted row)")
+                    break
+                if not with_nan and int(R[i].sum() - R[i, i]) < kA:
+                    problem = (f"state {i} has {int(R[i].sum() - R[i, i])} < {kA} neighbours "
+                               "other than itself")
+                    break
+            if problem is None and R.tolist() != ref_adaptive(D, kA, list(range(n_st)),
+                                                              nb=sn.tolist()):
+                problem = "matrix is not the documented construction on the sorted neighbours"
+        if problem:
+            ctx.fail(dict(kind="adaptive", cls=cls, issue=problem.split()[0], ties=True),
+                     f"{cls}(adaptive_neighborhood_size={kA}), tied distances: {problem}",
+                     dict(replay, R=enc_bmat(R)))
+        if net:
+            exp = R.copy()
+            np.fill_diagonal(exp, 0)
+            if not np.array_equal(np.asarray(obj.adjacency), exp):
+                ctx.fail(dict(kind="network", cls=cls, spec="adaptive", missing=False, ties=True),
+                         f"{cls}: adjacency is not the recurrence matrix without its diagonal",
+                         replay)
+        if not with_nan:
+            check_rqa(ctx, obj, R, cls, dict(spec="adaptive", missing=False), replay)
+        sntxt = ";".join(",".join(map(str, r)) for r in sn.tolist())
+        reqs.append(f"adaptsn {'0' if net else 'p'} {metric} {enc_emb(emb)} {kA} - {sntxt} "
+                    f"{enc_vmat(ts)}")
+        impl.append(f"N={int(obj.N)} A={enc_bmat(obj.adjacency)}" if net else
+                    f"N={int(obj.N)} M={int(obj.N)} R={enc_bmat(R)}")
+        ctx.count("adaptive-ties object in correspondence")
+        # the setter on the same object with a caller-chosen processing order
+        kB = rng.randrange(0, n_st + 2)
+        order = list(range(n_st))
+        rng.shuffle(order)
+        try:
+            obj.set_adaptive_neighborhood_size(kB, order=np.array(order, dtype=np.int64))
+            R2 = np.asarray(obj.recurrence_matrix())
+            got = (f"N={int(obj.N)} A={enc_bmat(obj.adjacency)}" if net else
+                   f"N={int(obj.N)} M={int(obj.N)} R={enc_bmat(R2)}")
+            if R2.tolist() != ref_adaptive(D, kB, order, nb=sn.tolist()):
+                ctx.fail(dict(kind="adaptive", cls=cls, issue="order", ties=True),
+                         f"{cls}.set_adaptive_neighborhood_size({kB}, order={order}) is not the "
+                         "documented construction for that processing order (tied distances)",
+                         dict(replay, setter_arg=kB, order=order, R=enc_bmat(R2)))
+        except Exception as ex:  # noqa
+            got = exc_name(ex)
+            ctx.fail(dict(kind="adaptive", cls=cls, error=type(ex).__name__, step="setter",
+                          ties=True),
+                     f"{cls}.set_adaptive_neighborhood_size({kB}, order=permutation) raised "
+                     f"{type(ex).__name__}: {ex}", dict(replay, setter_arg=kB, order=order))
+        if not (net and got.startswith("raise")):
+            reqs.append(f"adaptsn {'1' if net else 'p'} {metric} {enc_emb(emb)} {kB} "
+                        f"{','.join(map(str, order))} {sntxt} {enc_vmat(ts)}")
+            impl.append(got)
 
     # ------------------------------------------------------------------
     # 4. CrossRecurrencePlot
